@@ -49,10 +49,62 @@ pub fn fw_sample(case: &FwCase) -> Value {
     })
 }
 
+/// seed value that marks a framework case whose history is also run through the C API
+pub const CAPI_MARK: u64 = 0xC04C_A910_0000_0001;
+
+/// A framework case for the C-API pass: machines that are deterministic by construction (the C API
+/// draws from its own random source and reads the clock itself), shaped by `tweak`.
+pub fn capi_case(
+    machines: std::ops::RangeInclusive<usize>,
+    tweak: impl Fn(&mut crate::gen::MachineParams),
+    hp: &crate::gen::HistParams,
+) -> proptest::strategy::BoxedStrategy<FwCase> {
+    use proptest::strategy::Strategy;
+    let mut mp = c20::deterministic_params();
+    tweak(&mut mp);
+    mp.dist = crate::gen::DistProfile::Const;
+    mp.prob_style = 1;
+    crate::gen::fw_case(machines, &mp, hp, true, 0)
+        .prop_map(|mut c| {
+            c.machines = c.machines.into_iter().map(c20::clock_independent).collect();
+            c.max_blocking_frac = crate::spec::Fx(0.0);
+            c.seed = CAPI_MARK;
+            c
+        })
+        .boxed()
+}
+
+/// The property at the C API: the history is run through maybenot_start / maybenot_on_events /
+/// maybenot_stop (output buffer between canaries, count pre-set to garbage) and every call is
+/// compared with the Rust framework, which the caller then holds to the property on the same
+/// history. A difference means the guarantee does not carry over to C callers.
+pub fn capi_pass(case: &FwCase, obs: &mut crate::rt::Obs) -> Result<(), crate::rt::Failure> {
+    use crate::rt::Prop;
+    let run = c20::Case::Run {
+        machines: case.machines.clone(),
+        padding_frac: case.max_padding_frac,
+        batches: case.calls.iter().map(|c| c.events.clone()).collect(),
+        trailing_newline: false,
+    };
+    let mut o2 = crate::rt::Obs::default();
+    <c20::C20 as Prop>::check(&run, &mut o2)
+        .map_err(|f| crate::rt::Failure { signature: format!("c-api: {}", f.signature), detail: f.detail })?;
+    obs.hit("c_api_history");
+    if case.calls.iter().any(|c| c.events.is_empty()) {
+        obs.hit("c_api_empty_batch");
+    }
+    if o2.nontrivial {
+        obs.nontrivial();
+    }
+    Ok(())
+}
+
 /// domain of the framework properties: validated machines, fractions in [0,1], bounded size
 pub fn fw_admissible(case: &FwCase) -> bool {
     let frac = |f: f64| !f.is_nan() && (0.0..=1.0).contains(&f);
-    frac(case.max_padding_frac.0)
+    // (only the generators' own cases carry the C-API mark: that pass needs deterministic machines)
+    case.seed != CAPI_MARK
+        && frac(case.max_padding_frac.0)
         && frac(case.max_blocking_frac.0)
         && case.machines.len() <= 8
         && case.calls.len() <= 400
